@@ -569,7 +569,30 @@ func (w *world) stepCfg(dev, plan string) (out string) {
 			out = "panic " + panicClass(fmt.Sprint(r))
 		}
 	}()
+	from := len(w.dev.log)
 	res, err := w.crec.Reconcile(controller.NewID(cfgID()))
+	// the order in which the index groups reached the device is Go map order: name it by positions
+	// in the sorted list of rendered requests
+	if sent := w.dev.log[from:]; len(sent) > 1 && sent[0].answer == "ok" {
+		keys := make([]string, len(sent))
+		for i, r := range sent {
+			keys[i] = fmtReq(r)
+		}
+		sorted := append([]string{}, keys...)
+		sort.Strings(sorted)
+		used := make([]bool, len(sorted))
+		var pos []string
+		for _, k := range keys {
+			for j, sk := range sorted {
+				if sk == k && !used[j] {
+					used[j] = true
+					pos = append(pos, fmt.Sprint(j))
+					break
+				}
+			}
+		}
+		w.hints = append(w.hints, "rs="+strings.Join(pos, ","))
+	}
 	return resString(res, err) + " w=" + strings.Join(w.inj.trace, "")
 }
 
